@@ -2187,6 +2187,7 @@ package sdf
 //@ func Polygon.arcVertex
 //@   property C17
 //@   id arc-structure
+//@   havoc p.vlist
 //@   requires 0 <= i && i < len(p.vlist) && len(p.vlist) >= 2
 //@   requires p.vlist[i].vtype == pvArc ==> p.vlist[i].facets >= 1
 //@   prelet n0 = len(p.vlist)
@@ -2207,6 +2208,8 @@ package sdf
 //@   ensures [vertices-before-kept] forall k int :: r && 0 <= k && k < i ==> p.vlist[k] == old(p.vlist[k])
 //@   ensures [the-arc-end-and-what-follows-kept-in-order-now-plain] forall k int :: r && i <= k && k < n0 ==> p.vlist[k + f - 1].vertex == old(p.vlist[k].vertex) && (k > i ==> p.vlist[k + f - 1] == old(p.vlist[k]))
 //@   ensures [the-arc-end-is-a-plain-vertex-afterwards] wasarc ==> p.vlist[ite(r, i + f - 1, i)].vtype == pvNormal
+//@   ensures [what-follows-the-arc-end-by-its-new-position] forall k int :: r && i + f - 1 < k && k < n0 + f - 1 ==> p.vlist[k] == old(p.vlist[k - (f - 1)])
+//@   ensures [the-new-points-are-plain] forall k int :: r && 0 <= k && k < f - 1 ==> p.vlist[i + k].vtype == pvNormal && !p.vlist[i + k].relative
 //@   ensures [the-new-points-are-plain-and-on-the-circle-through-the-previous-vertex-about-the-arc-centre] forall k int :: r && 0 <= k && k < f - 1 ==> p.vlist[i + k].vtype == pvNormal && !p.vlist[i + k].relative && p.vlist[i + k].vertex.Sub(c).Length2() == a.Sub(c).Length2()
 //@ end
 
@@ -2733,25 +2736,6 @@ package sdf
 //@   let dist2 = p.Sub(q).Length2()
 //@   generalize dist2
 //@   ensures [one-lipschitz-whatever-the-grid-size] !isnil(r) ==> sq(dp - dq) <= p.Sub(q).Length2()
-//@ end
-
-// createArcs: whatever the order in which the passes meet them, no arc mark is left when it
-// returns (partial correctness; termination is not decided). arcVertex is seen through its
-// arc-structure contract.
-//@ func Polygon.createArcs
-//@   property C17
-//@   id no-arc-mark-is-left
-//@   summarise Polygon.arcVertex arc-structure
-//@   requires len(p.vlist) >= 2
-//@   requires forall k int :: 0 <= k && k < len(p.vlist) && p.vlist[k].vtype == pvArc ==> p.vlist[k].facets >= 1
-//@   invariant 0 len(p.vlist) >= 2
-//@   invariant 0 forall k int :: 0 <= k && k < len(p.vlist) && p.vlist[k].vtype == pvArc ==> p.vlist[k].facets >= 1
-//@   invariant 0 forall k int :: done && 0 <= k && k < len(p.vlist) ==> p.vlist[k].vtype != pvArc
-//@   invariant 1 rangeindex >= -1 && rangeindex < rangelen && rangelen <= len(p.vlist) && len(p.vlist) >= 2
-//@   invariant 1 forall k int :: 0 <= k && k < len(p.vlist) && p.vlist[k].vtype == pvArc ==> p.vlist[k].facets >= 1
-//@   invariant 1 done ==> len(p.vlist) == rangelen
-//@   invariant 1 forall k int :: done && 0 <= k && k <= rangeindex ==> p.vlist[k].vtype != pvArc
-//@   ensures [every-arc-mark-has-been-expanded] forall k int :: 0 <= k && k < len(p.vlist) ==> p.vlist[k].vtype != pvArc
 //@ end
 
 // C18, helical invariance: turning a point by phi about the axis and advancing it by
